@@ -6,6 +6,7 @@ import (
 	"encoding/json"
 	"fmt"
 	"runtime"
+	"sort"
 	"sync"
 	"sync/atomic"
 	"testing"
@@ -34,11 +35,11 @@ type Scenario struct {
 
 type reqState struct {
 	arrived, inDo, ranDo, returned, cancelled, gateOpen bool
-	err                                             error
-	admitSeq                                        int
-	admitStep                                       int
-	arriveSeq                                       int
-	cancelledWhileWaiting                           bool
+	err                                                 error
+	admitSeq                                            int
+	admitStep                                           int
+	arriveSeq                                           int
+	cancelledWhileWaiting                               bool
 }
 
 func Exec(t *testing.T, sc Scenario) *evid.Failure {
@@ -157,17 +158,44 @@ func Exec(t *testing.T, sc Scenario) *evid.Failure {
 					}
 				}
 			}
-			// arrival order among requests of one path
+			// arrival order among requests of one path. The limiter has two stages: the per-path queue
+			// (FIFO) and then the total limit; requests that left the per-path queue in order still race
+			// for the total limit, and "requests waiting for the same path are admitted in arrival order"
+			// is a statement about the per-path queue. So the queue itself is observed (verif accessor):
+			// at a quiescent point it must hold exactly the latest arrivals among the pending requests of
+			// its path, and nobody who arrived after a queued request may have run.
+			byPath := map[int][]int{}
 			for i := range st {
-				for j := range st {
-					a, b := &st[i], &st[j]
-					// Admissions that happen within one quiescent step (a cascade: several requests become
-					// eligible at the same instant, e.g. because their gates were already open) race for
-					// the total limit after the per-path stage released them in order; which of them
-					// enters first is the scheduler's choice. Order is asserted across steps only.
-					if i != j && a.ranDo && b.ranDo && pathOf(i) == pathOf(j) && !a.cancelled && !b.cancelled && a.arriveSeq < b.arriveSeq && a.admitStep > b.admitStep {
-						fail = evid.Failf("limit/order", sc, "after event %d (%s): request %d arrived before request %d on the same path but was admitted after it: %s", step, what, i, j, desc())
-						return false
+				if s := &st[i]; s.arrived && !s.ranDo && !s.returned && !s.cancelled {
+					byPath[pathOf(i)] = append(byPath[pathOf(i)], i)
+				}
+			}
+			for pth, pend := range byPath {
+				sort.Slice(pend, func(x, y int) bool { return st[pend[x]].arriveSeq < st[pend[y]].arriveSeq })
+				_, q := l.VerifEndpoint(reqs[pend[0]])
+				if q > len(pend) {
+					fail = evid.Failf("limit/queue-ghost", sc, "after event %d (%s): the queue of path %d holds %d waiters but only %d requests are pending on it: %s", step, what, pth, q, len(pend), desc())
+					return false
+				}
+				for _, a := range pend[len(pend)-q:] {
+					for j := range st {
+						if b := &st[j]; j != a && b.arrived && pathOf(j) == pth && b.ranDo && b.arriveSeq > st[a].arriveSeq {
+							fail = evid.Failf("limit/order", sc, "after event %d (%s): request %d still waits in the queue of path %d although request %d, which arrived later, was admitted: %s", step, what, a, pth, j, desc())
+							return false
+						}
+					}
+				}
+			}
+			// With no total limit there is no second stage: entering do() is the admission, and it must
+			// follow arrival order across quiescent steps.
+			if sc.Total <= 0 {
+				for i := range st {
+					for j := range st {
+						a, b := &st[i], &st[j]
+						if i != j && a.ranDo && b.ranDo && pathOf(i) == pathOf(j) && !a.cancelled && !b.cancelled && a.arriveSeq < b.arriveSeq && a.admitStep > b.admitStep {
+							fail = evid.Failf("limit/order", sc, "after event %d (%s): request %d arrived before request %d on the same path but was admitted after it: %s", step, what, i, j, desc())
+							return false
+						}
 					}
 				}
 			}
@@ -472,7 +500,7 @@ func TestCheck(t *testing.T) {
 		return f
 	})
 	r.Main(evid.Meta{
-		Rule:        "the limiter built with (total, per-path) limits from {1,2,unlimited}, the wrapped do blocking on a per-request gate and keeping in-flight gauges; events {arrive(i,path), cancel(i), finish(i)} executed one at a time in a synctest bubble with quiescence after each; exhaustive: every event order for 3 requests (4 in the thorough tier) x every cancel subset x path assignments x 7 limit pairs; random: 4-7 requests over 3 paths. Oracle at every quiescent point: in-flight <= total limit and <= per-path limit per path; a waiter cancelled while waiting returns its context error and never runs; no waiter exists while both limits have room for it (no lost slot); same-path requests are admitted in arrival order; finally every call has returned, a probe on every path is admitted at once, and no limiter goroutine is left. stress: 3-32 real goroutines (no virtual clock) released together on 3 paths, cancelling after 0-400 us, 40 repetitions per pattern; the gauges inside do() give the maximum ever in flight, afterwards the queue table (verif accessor) is empty and a probe on each path runs at once. Non-trivial = a cancel of a request queued behind another one (finite limits); distinct by scenario",
+		Rule:        "the limiter built with (total, per-path) limits from {1,2,unlimited}, the wrapped do blocking on a per-request gate and keeping in-flight gauges; events {arrive(i,path), cancel(i), finish(i)} executed one at a time in a synctest bubble with quiescence after each; exhaustive: every event order for 3 requests (4 in the thorough tier) x every cancel subset x path assignments x 7 limit pairs; random: 4-7 requests over 3 paths. Oracle at every quiescent point: in-flight <= total limit and <= per-path limit per path; a waiter cancelled while waiting returns its context error and never runs; no waiter exists while both limits have room for it (no lost slot); the per-path queue (verif accessor) holds exactly the latest arrivals among the pending requests of its path and nobody who arrived after a queued request has run (FIFO admission; with no total limit also: entry into do() follows arrival order across steps); finally every call has returned, a probe on every path is admitted at once, and no limiter goroutine is left. stress: 3-32 real goroutines (no virtual clock) released together on 3 paths, cancelling after 0-400 us, 40 repetitions per pattern; the gauges inside do() give the maximum ever in flight, afterwards the queue table (verif accessor) is empty and a probe on each path runs at once. Non-trivial = a cancel of a request queued behind another one (finite limits); distinct by scenario",
 		Assumptions: []string{"events are applied one at a time, so at a quiescent point a request is either waiting or running: the 'either outcome' tolerance for simultaneous admission and cancellation is not needed"},
 		Floor:       500,
 	}, exhaustive(t, 3), random, stressEngine(r))
